@@ -20,7 +20,7 @@ import (
 )
 
 func init() {
-	register(&Prop{ID: "C06", Witness: true, N: 6000, Quick: 60, QuickFixed: uint64(5 + len(gen.Exemplars)), Build: "race", Workers: 8, StallSec: 600,
+	register(&Prop{ID: "C06", Witness: true, N: 6000, Quick: 60, QuickFixed: uint64(5 + len(gen.Exemplars) + 4), Build: "race", Workers: 8, StallSec: 600,
 		Assume: []string{"the Go race detector (-race) observes unsynchronised conflicting accesses of the executions driven here; reports are read from its log per case, deduplicated by the pair of innermost coregex functions and the API entry points", "the sequential result of each (API, haystack) on the same value is the specification of the concurrent call"},
 		Rule:   "case = one pattern G(D,i) (exemplars of every strategy and mutants) compiled once; 12 (API, haystack) calls are first executed alone (sequential specification), then G in {2, 8, 32} goroutines released by a barrier execute seeded shuffles of those calls on the ONE shared Regex (same and different haystacks, ASCII and non-ASCII, runtime.GC() interleaved); every concurrent result must equal its sequential result and the race log must stay empty; one evaluation = one concurrent call; distinct_nontrivial = distinct (pattern, API pair) combinations that were in flight at the same time on one value (in-flight counter)",
 		Pre: func(p *Prop) {
@@ -35,6 +35,17 @@ func init() {
 
 // knownC06: no race on the current tree is excused (the shared-PikeVM races were repaired); kept as the single place where a call-site-identified finding would be recognised.
 var c06OversizePatterns = []string{`^(?:\pL+ )+\d`, `^(\pL|\d)+$`, `^(.+)-(\pL+)$`, `(\pL+)\s(\pL+)`, `((\pL{2})+)\d`}
+
+// c06ExtraPatterns: strategies that no exemplar of the generator selects: Fat Teddy with its small-haystack
+// Aho-Corasick fallback (33-64 literals), the Aho-Corasick engine (> 64 substring-free literals), many short literals.
+func c06ExtraPatterns() []string {
+	return []string{
+		gen.ManyLiterals(gen.Rng("C06x", 1), 40, false),
+		gen.ManyLiterals(gen.Rng("C06x", 2), 70, false),
+		gen.ManyLiterals(gen.Rng("C06x", 3), 48, true),
+		gen.ManyLiterals(gen.Rng("C06x", 4), 12, false),
+	}
+}
 
 func knownC06(f *Failure) string { return "" }
 
@@ -65,10 +76,14 @@ func runC06(w *W, i uint64) {
 		forceOversize = true
 	}
 	exemplarCase := false
-	if k := int(i) - len(c06OversizePatterns); k >= 0 && k < len(gen.Exemplars) {
+	if k := int(i) - len(c06OversizePatterns); k >= 0 && k < len(gen.Exemplars)+len(c06ExtraPatterns()) {
 		exemplarCase = true
 		// fixed part of every run: every strategy exemplar itself (not a mutant), with the adversarial families below
-		c.Pattern = gen.Exemplars[k]
+		if k < len(gen.Exemplars) {
+			c.Pattern = gen.Exemplars[k]
+		} else {
+			c.Pattern = c06ExtraPatterns()[k-len(gen.Exemplars)]
+		}
 		if re1, ok := gen.Valid(c.Pattern); ok {
 			c.Haystacks = gen.Haystacks(gen.Rng("C06e", i), re1, gen.ASCII, 6)
 			c.Region = gen.ASCII
